@@ -553,6 +553,27 @@ class Check:
             self.report_violation('proof-gate', {'no_failing_input': True, 'broken': self.gate_problems},
                                   what='proof gate no longer checks: ' + self.gate_problems[0][:300])
 
+    def correspondence_break(self, signature, replay, what=''):
+        """The model and the implementation disagree on something the property itself does not fix (a different but
+        valid answer, another sequence of internal steps, another file text that still round-trips ...).  The tie is
+        broken, so the property is no longer shown to hold: reported at the end of the run, with the failing inputs of
+        the property-level exploration when it found any, with no-failing-input-found otherwise."""
+        if not hasattr(self, 'pending_breaks'):
+            self.pending_breaks = []
+        if signature not in [p[0] for p in self.pending_breaks]:
+            self.pending_breaks.append((signature, dict(replay), what))
+
+    def flush_breaks(self):
+        for signature, replay, what in getattr(self, 'pending_breaks', []):
+            found = [str(rp) for _, rp, nf in self.violations if not nf]
+            replay['no_failing_input'] = not found
+            replay.setdefault('broken', ['correspondence ' + signature + ' (model vs implementation)'])
+            replay['failing_inputs_found_by_the_exploration'] = found[:5]
+            replay['note'] = ('the disagreement below is between the model and the implementation; the input is NOT by itself a violation of the property'
+                              if not found else 'property-level failing inputs were found by the same run, see failing_inputs_found_by_the_exploration')
+            self.report_violation(signature, replay, what=what)
+        self.pending_breaks = []
+
     def machinery_violation(self, what, detail):
         self.report_violation('machinery:' + what, {'no_failing_input': True, 'broken': [what], 'detail': detail},
                               what=f'correspondence can no longer be evaluated: {what}')
